@@ -18,6 +18,7 @@ const rule = "SQLite (current, desired) pairs on a real engine, biased to revers
 	"(70%) or from the full edit catalogue (30%, mostly irreversible rebuilds, for the flag part). If Plan.Reversible: statements are executed, then ReverseStmts() of the changes in reverse order; " +
 	"oracle = harness' PRAGMA catalog before == after and Atlas diff original<->result empty in both directions; for every plan: Reversible => every change with a schema Source has >=1 reverse statement. " +
 	"Dialect-wide flag/down-file consistency is the sub-check `downfiles` (MySQL, PostgreSQL, SQLite plans x formatters with a down section). " +
+	"Sub-check `fk-graphs-reverse`: MySQL / PostgreSQL plans over foreign-key graphs (every graph of <=2 tables in quick, <=3 in thorough; random graphs of 5-8 tables, MySQL flavours, two schemas) replayed on a reference catalogue, then their reverse statements last change first: dependency rules respected, initial tables and keys back. " +
 	"non-trivial = reversible plan with >=2 statements (engine part) / plan with >=1 reverse statement (down-file part); distinct key = (edit kinds, features, #statements)"
 
 var reversibleKinds = []string{"add-table", "drop-table", "add-index", "drop-index", "add-column", "add-index", "add-table"}
